@@ -62,6 +62,13 @@ def generate(rng, tier):
         lk.append(ln); rk.append(rn)
     left = [dict({"_ltag_": i, "lv": rng.choice(["p", "q"])}, **{k: rng.choice(pools[j]) for j, k in enumerate(lk)}) for i in range(nl)]
     right = [dict({"_rtag_": i}, **{k: (rng.choice([7, 8]) if disjoint and j == 0 else rng.choice(pools[j])) for j, k in enumerate(rk)}) for i in range(nr)]
+    clash = [ln for ln, rn in zip(lk, rk) if ln != rn]
+    clashed = False
+    if clash and op != "full_join" and rng.random() < 0.15:
+        clashed = True      # (not for full_join: what a right-only item shows under a name it has twice is not defined)
+        # with a renamed pair (left, right) the right items may carry an ordinary entry that happens to be named like the LEFT key
+        for it in right:
+            it[clash[0]] = rng.choice([100, 200])
     for it in right:
         if rng.random() < 0.7: it["rv"] = rng.choice([10, 20, None])
         if rng.random() < 0.3: it["rw"] = rng.choice(["m", [1]])
@@ -69,7 +76,7 @@ def generate(rng, tier):
     if op != "full_join" and rng.random() < 0.12:
         # a right list of bare keys (used as a filter): its items have nothing to merge in
         case["right"] = [{k: it[k] for k in rk} for it in right]
-    if rng.random() < 0.2:
+    if rng.random() < 0.2 and not clashed:
         # lists holding the same dict OBJECT more than once (data * 2, data + data)
         case["alias"] = rng.choice(["left", "right", "both"])
     return case
@@ -120,6 +127,13 @@ def execute(case):
                     data = grouped
                     out = grouped.aggregate(n=len, tags=lambda g: [i._tag_ for i in g])
                     res.cls("aggregate-history")
+                elif n and n % 4 == 0:
+                    # a summary stored under the name of a group key: the groups are still those of the ITEMS' key values, in that order
+                    data = di.ListOfDicts(copy.deepcopy(items))
+                    out = data.group_by(*keys).aggregate(n=len, tags=lambda g: [i._tag_ for i in g], **{keys[-1]: lambda g: -len(g)})
+                    exp = [dict(e, **{keys[-1]: -e["n"]}) for e in exp]
+                    order = None
+                    res.cls("aggregate:summary-named-like-group-key")
                 else:
                     data = di.ListOfDicts(copy.deepcopy(items))
                     out = data.group_by(*keys).aggregate(n=len, tags=lambda g: [i._tag_ for i in g])
@@ -128,7 +142,7 @@ def execute(case):
             return res.dict()
         got = [dict(x) for x in list.__iter__(out)]
         if got != exp:
-            what = "wrong-groups-or-order" if [tuple(g.get(k) for k in keys) for g in got] != order else "wrong-summary"
+            what = "wrong-groups-or-order" if order is None or [tuple(g.get(k) for k in keys) for g in got] != order else "wrong-summary"
             res.violate(f"aggregate:{what}", f"aggregate by {keys}: got {canon.short(got, 600)} expected {canon.short(exp, 600)}; items {canon.short(items, 600)}")
         if not case.get("history") and [dict(x) for x in list.__iter__(data)] != items:
             res.violate("aggregate:mutated-input", f"items changed: {canon.short(items, 400)}")
